@@ -182,6 +182,7 @@ def execute(case):
     t_min = t_max = wall.t
     seen_abs = {}
     streams = {}
+    probed = {}
 
     def viol(oracle, cls, detail):
         V.append({"oracle": oracle, "class": cls, "detail": detail})
@@ -277,8 +278,13 @@ def execute(case):
                     kind = _kind(got, want) if form["c"] != "clock" else _clock_kind(got, want)
                     # mechanism probe: is the right reading produced but lost by the default
                     # stack-depth limit (max_stack_depth=10)?
-                    got0 = _unlimited(lib, form["s"], instant, latent)
-                    if got0 is not None and _same(got0, want, form):
+                    # (probed once per template and failure kind within a session: the probe
+                    # is a full un-truncated search)
+                    pk = (form["t"], kind)
+                    if pk not in probed:
+                        got0 = _unlimited(lib, form["s"], instant, latent)
+                        probed[pk] = got0 is not None and _same(got0, want, form, instant)
+                    if probed[pk]:
                         kind = "lost-by-depth-limit"
                     viol(prop + ".value", form["t"] + "|" + kind,
                          "event %d: %r at %s (%s ts, latent=%s) -> %s, calendar model: %s"
